@@ -37,6 +37,9 @@ def arg_shapes(p, tier):
                 dims.append([('list', n) for n in ls])
         elif a[0] == 'int':
             dims.append([('int', v) for v in (a[1] if tier == 'thorough' else a[1][:4])])
+        elif a[0] == 'pair':
+            # a tuple argument (list of n reals, real)
+            dims.append([('pair', n) for n in a[1]])
     out = []
     for combo in itertools.product(*dims):
         combo = list(combo)
@@ -59,7 +62,7 @@ class SymArgs:
         self.CW = CW
         k = 0
         for c in shape:
-            n = 1 if c[0] == 'real' else (c[1] if c[0] == 'list' else 0)
+            n = 1 if c[0] == 'real' else (c[1] if c[0] == 'list' else (c[1] + 1 if c[0] == 'pair' else 0))
             for _ in range(n):
                 self.leaves.append((eng.fresh('c%d' % k, 0, (1 << CW) - 1), eng.fresh('s%d' % k, 0, 1)))
                 k += 1
@@ -73,12 +76,16 @@ class SymArgs:
                 m, s = self.leaves[k]; k += 1
                 # ('real', e): the argument is c * 2^e instead of the default half-integers (C11: operands far apart make binary64 / binary32 operations inexact)
                 out.append(summaries._mk_float(s.t != 0, c[1] if len(c) > 1 else EXP0, m.t, None, self.CW))
-            elif c[0] == 'list':
+            elif c[0] in ('list', 'pair'):
                 lst = []
                 for _ in range(c[1]):
                     m, s = self.leaves[k]; k += 1
                     lst.append(summaries._mk_float(s.t != 0, EXP0, m.t, None, self.CW))
-                out.append(lst)
+                if c[0] == 'pair':
+                    m, s = self.leaves[k]; k += 1
+                    out.append((lst, summaries._mk_float(s.t != 0, EXP0, m.t, None, self.CW)))
+                else:
+                    out.append(lst)
             else:
                 out.append(Float.from_int(c[1]))
         return tuple(out)
@@ -90,11 +97,14 @@ def concrete_args(shape, inputs):
     for c in shape:
         if c[0] == 'real':
             out.append(Float(bool(inputs['s%d' % k]), c[1] if len(c) > 1 else EXP0, inputs['c%d' % k])); k += 1
-        elif c[0] == 'list':
+        elif c[0] in ('list', 'pair'):
             lst = []
             for _ in range(c[1]):
                 lst.append(Float(bool(inputs['s%d' % k]), EXP0, inputs['c%d' % k])); k += 1
-            out.append(lst)
+            if c[0] == 'pair':
+                out.append((lst, Float(bool(inputs['s%d' % k]), EXP0, inputs['c%d' % k]))); k += 1
+            else:
+                out.append(lst)
         else:
             out.append(Float.from_int(c[1]))
     return tuple(out)
